@@ -28,6 +28,7 @@ const (
 type scalarOperator struct {
 	seriesOnce sync.Once
 	series     []labels.Labels
+	duplicates *model.DuplicateLabelCheck
 
 	pool          *model.VectorPool
 	scalar        model.VectorOperator
@@ -145,6 +146,10 @@ func (o *scalarOperator) Next(ctx context.Context) ([]model.StepVector, error) {
 			step.Samples = append(step.Samples, val)
 			step.SampleIDs = append(step.SampleIDs, vector.SampleIDs[i])
 		}
+		// Dropping the metric name can make two series indistinguishable.
+		if err := o.duplicates.Check(step); err != nil {
+			return nil, err
+		}
 		out = append(out, step)
 		o.next.GetPool().PutStepVector(vector)
 	}
@@ -180,6 +185,7 @@ func (o *scalarOperator) loadSeries(ctx context.Context) error {
 	}
 
 	o.series = series
+	o.duplicates = model.NewDuplicateLabelCheck(series)
 	return nil
 }
 
